@@ -23,6 +23,11 @@
 #define SP_BIT(a, k) SPEC_BIT32((a).u.addr4.addr, k)
 #define SP_TOP_EQ(a, b, n) (SPEC_TOP32((a).u.addr4.addr, n) == SPEC_TOP32((b).u.addr4.addr, n))
 #endif
+#ifdef FAM6
+#define SP_ADDR_EQ(a, b) ((a).u.addr6.addr[0] == (b).u.addr6.addr[0] && (a).u.addr6.addr[1] == (b).u.addr6.addr[1] && (a).u.addr6.addr[2] == (b).u.addr6.addr[2] && (a).u.addr6.addr[3] == (b).u.addr6.addr[3])
+#else
+#define SP_ADDR_EQ(a, b) ((a).u.addr4.addr == (b).u.addr4.addr)
+#endif
 /* RFC 6811: node k covers the query */
 #define SP_COVERS(k) (g_nodes[k].len <= g_ql && SP_TOP_EQ(g_nodes[k].prefix, g_q, g_nodes[k].len))
 
